@@ -6,6 +6,7 @@ package main
 import (
 	"io"
 	"sync/atomic"
+	"time"
 )
 
 var verifHookV atomic.Value // func(label string)
@@ -44,3 +45,28 @@ func verifEnter(method string) func() {
 }
 
 func verifActive() int { return int(atomic.LoadInt32(&verifActiveN)) }
+
+// verifAux: yield points that only the delayed-write level of C04 uses (before v.lock = waiting for the
+// Serialize mutex).  No hook installed = no effect, so the step lists of C02 and C04 (I) are unchanged.
+var verifAuxV atomic.Value // func(label string)
+
+func verifSetAuxHook(f func(label string)) {
+	if f == nil {
+		f = func(string) {}
+	}
+	verifAuxV.Store(f)
+}
+
+func verifAux(label string) {
+	if h, ok := verifAuxV.Load().(func(string)); ok && h != nil {
+		h(label)
+	}
+}
+
+// verifNow replaces time.Now() in the instrumented unix_volume.go: the real clock plus an offset that a
+// harness may advance while a request is parked at a yield point ("time passes").
+var verifClockOffset int64 // nanoseconds
+
+func verifNow() time.Time { return time.Now().Add(time.Duration(atomic.LoadInt64(&verifClockOffset))) }
+
+func verifAdvanceClock(d time.Duration) { atomic.AddInt64(&verifClockOffset, int64(d)) }
